@@ -84,6 +84,7 @@ var table = []spec{
 	{Dir: "pkg/protocol", Name: "buildLowEntropyParams"},
 	{Dir: "pkg/protocol", Name: "lowEntropyEncodedPayloadLen"},
 	{Dir: "pkg/protocol", Name: "maxFragmentSize"},
+	{Dir: "pkg/protocol", Name: "validateLowEntropyCodecParams"},
 	{Dir: "pkg/cipher", Name: "increaseNonce", Recv: "aeadBlockCipher"},
 	{Dir: "pkg/mathext", Name: "Mid", Inst: map[string]string{"T": "uint32"}, Sfx: "_uint32"},
 	{Dir: "pkg/mathext", Name: "WithinRange", Inst: map[string]string{"T": "uint32"}, Sfx: "_uint32"},
@@ -990,6 +991,13 @@ func (t *tr) expr(e ast.Expr) (string, error) {
 		key := fo.Pkg().Path() + "." + fo.Name()
 		if (key == "fmt.Errorf" || key == "errors.New") && isError(tv.Type) {
 			return "true", nil // an error value: only its presence is kept
+		}
+		if (key == "math/bits.OnesCount32" || key == "math/bits.OnesCount64" || key == "math/bits.OnesCount") && len(e.Args) == 1 {
+			x, err := t.expr(e.Args[0])
+			if err != nil {
+				return "", err
+			}
+			return "(go_popcount " + x + ")", nil // by specification: the number of one bits of an unsigned value
 		}
 		if key == "math/bits.RotateLeft64" && len(e.Args) == 2 {
 			x, err := t.expr(e.Args[0])
